@@ -21,6 +21,7 @@ type c13inode struct {
 	dsync   bool
 	open    bool
 	closes  int
+	short   bool // some write to this inode was short
 }
 
 var c13 struct {
@@ -70,6 +71,7 @@ func c13install() {
 		if n > 0 && c13.faults < vrt.Param("MAXFAULTS") && vrt.Bool("shortWrite") {
 			c13.faults++
 			n--
+			ino.short = true
 		}
 		ino.written += n
 		ino.synced = false
@@ -176,6 +178,7 @@ func VerifC13Writes() {
 			if linked {
 				ino := c13.inodes[idx]
 				vrt.Assert(c13.linkAt[p] >= sz, "the object was linked only after its bytes were completely written")
+				vrt.Assert(!ino.short, "a write that reports success has no short (incomplete) write behind it")
 				vrt.Assert(ino.dsync || ino.synced, "a write that reports success is durably synced")
 				vrt.Assert(!ino.open, "the descriptor is closed")
 			}
